@@ -175,7 +175,16 @@ def attribute(fails, design, table):
     dall = K.neutralise_all(design, table)
     pr = fails(dall)
     if not pr:
-        return [sig for sig, _ in trig], None, []
+        # several findings together: keep those without whose neutralisation the case still fails
+        need = []
+        for sig, _ in trig:
+            rest = [(s_, t, n) for (s_, t, n) in table if s_ != sig]
+            try:
+                if fails(K.neutralise_all(design, rest)):
+                    need.append(sig)
+            except AssertionError:
+                need.append(sig)
+        return need or [sig for sig, _ in trig], None, []
     return [], dall, pr
 
 
